@@ -11,8 +11,16 @@ CLAIMED = {
          KIT + ' Faces thinner than ~3 units are not probed (inside the band). Listed findings F29 (call-site attribution through the split-drop hook) and F30 (input class kit.NearDegenerate) are excused and counted.', 'DESIGN.md section 7 C01'),
  'C02': ('property-based testing (rapid): validity predicate over generated boolean results (vertex rules, winding in {0,1} off the solution edges, re-union and option metamorphic relations)',
          GEN, KIT + ' preserveCollinear / reverseSolution are set through the verif hook.', 'DESIGN.md section 7 C02'),
+ 'C04': ('property-based testing (rapid): PolyTree vs flat Paths multiset equality plus nesting oracle (interior probe of every node -> innermost containing polygon must be the parent; IsHole <=> orientation <=> level parity), 64-bit and D variants',
+         GEN, KIT + ' Listed findings excused: F30 (near-degenerate input), F32 (node touches the polygon it is nested under/beside), F38 (input has coincident edges).', 'DESIGN.md section 7 C04'),
+ 'C05': ('property-based testing (rapid): generated simple polygon sets with holes (verified exactly in the generator) x delta x join types; distance/winding oracle at ring probes along normals and around vertices',
+         GEN, KIT + ' tol = 2 + effective arc tolerance; listed findings F39 (Bevel near-straight mitre), F40 (compound rounding up to 2.75 units) are excused by re-judging with the relaxed constant.', 'DESIGN.md section 7 C05'),
  'C06': ('property-based testing (rapid): generated rectangles x closed paths biased to corners/edges of the rectangle, exact winding-number oracle inside/outside the rectangle',
          GEN, KIT, 'DESIGN.md section 7 C06'),
+ 'C09': ('property-based testing (rapid): open subject polylines x closed clips; coverage oracle at sample points of the subject segments (exact winding of the clip region), sub-polyline test, closed solution with vs. without open paths, tree form',
+         GEN, KIT + ' "Alter" is judged at region level outside the 2-unit band (vertex lists may differ within the band, counted in the evidence). F30 excused by input class.', 'DESIGN.md section 7 C09'),
+ 'C10': ('property-based testing (rapid): open polylines x end types x join types x delta; distance oracle at ring probes (segments, caps, joins), Butt rule from segment rectangles',
+         GEN, KIT + ' Listed findings: F19 (no end caps; probes within k*delta of the first/last segment excluded), F41, F43, F39, F30 via the offset-raw hook.', 'DESIGN.md section 7 C10'),
  'C11': ('property-based testing (rapid): generated rectangles x open polylines; sub-polyline / order / coverage oracle',
          GEN, KIT + ' Coverage is judged at sample points farther than 5 units from the rectangle boundary.', 'DESIGN.md section 7 C11'),
  'C14': ('property-based testing (rapid): hostile operand pool vs math/big oracles for Area64, IsPositive64, PointInPolygon, GetBounds64, isCollinear, productsAreEqual, CrossProduct',
